@@ -914,3 +914,67 @@ Example C04_http_premises_satisfiable :
   option_map (fun r => ex_verdicts r (v4 192 168 7 8)) (restart ex_conf_cfg [] r4) =
     Some (Some [true; true; true; true; true; true; false]).
 Proof. exact example_http_history. Qed.
+
+(** * Round 9: the lowest precedence level against the real DHCP server;
+      rejected static-lease calls *)
+From AGH Require Import Model.ClientLease Proofs.ClientLease.
+From AGH Require Model.Dhcp4.
+
+(** What dhcpd's FindMACbyIP answers is the hardware address of a lease of
+    that address that is IN the server's table, static or not yet expired. *)
+Theorem C04_lease_answer_from_held_lease : forall now s ip m,
+  Dhcp4.mac_by_ip now s ip = m -> m <> 0 ->
+  exists l, In l (Dhcp4.leases s) /\ Dhcp4.l_ip l = ip /\ Dhcp4.l_mac l = m /\
+            (Dhcp4.l_static l = true \/ (now < Dhcp4.l_exp l)%Z).
+Proof. exact answer_from_held_lease. Qed.
+Print Assumptions C04_lease_answer_from_held_lease.
+
+(** A REJECTED AddStaticLease / UpdateStaticLease / RemoveStaticLease (duplicate
+    host name, duplicate hardware address or address, outside the subnet, the
+    gateway's address, no such lease ...) leaves no lease in the table that was
+    not there before (up to a cleared host name). *)
+Theorem C04_rejected_lease_op_creates_no_lease : forall c s now busy o s',
+  static_op o -> Dhcp4.step c s now busy o = (s', Dhcp4.RApi false) -> no_new_lease s s'.
+Proof. exact rejected_static_op_no_new_lease. Qed.
+Print Assumptions C04_rejected_lease_op_creates_no_lease.
+
+(** Hence after a rejected call every answer of the storage's lease oracle is
+    the hardware address of a lease of that address held BEFORE the call: the
+    rejected lease attributes nothing. *)
+Theorem C04_rejected_lease_op_no_new_answer : forall c s now busy o s' a mb,
+  static_op o -> Dhcp4.step c s now busy o = (s', Dhcp4.RApi false) ->
+  lease_oracle now s' a = Some mb ->
+  exists l, In l (Dhcp4.leases s) /\ ip_of_addr a = Some (Dhcp4.l_ip l) /\
+            mac_bytes (Dhcp4.l_mac l) = mb /\
+            (Dhcp4.l_static l = true \/ (now < Dhcp4.l_exp l)%Z).
+Proof. exact rejected_lease_op_no_new_answer. Qed.
+Print Assumptions C04_rejected_lease_op_no_new_answer.
+
+(** In every state of the DHCP server the storage attributes by the full
+    precedence with the server's FindMACbyIP at the lowest level, and a
+    level-4 attribution goes through a held lease of the request's address
+    whose hardware address the client owns. *)
+Theorem C04_lease_attr_resolves : forall ix now s id a,
+  Inv ix -> resolves ix (lease_oracle now s) id a (lease_attr ix now s id a).
+Proof. exact lease_attr_resolves. Qed.
+Print Assumptions C04_lease_attr_resolves.
+
+Theorem C04_lease_attr_through_held_lease : forall ix now s id a u,
+  Inv ix -> no_cid ix id -> no_ip ix a -> no_cidr ix a ->
+  lease_attr ix now s id a = Some u ->
+  exists l, In l (Dhcp4.leases s) /\ ip_of_addr a = Some (Dhcp4.l_ip l) /\
+            owner_of ix c_macs (mac_bytes (Dhcp4.l_mac l)) u.
+Proof. exact lease_attr_through_held_lease. Qed.
+Print Assumptions C04_lease_attr_through_held_lease.
+
+(** Premises satisfiable: (box, nas, .10) accepted, (box, kid's MAC, .11)
+    rejected for the host name: the request from .11 is nobody's; it is the
+    kid's once .11 is really leased to that hardware address. *)
+Example C04_rejected_lease_scenario :
+  let r1 := Dhcp4.step ex_conf Dhcp4.empty_state 0 [] (Dhcp4.OStaticAdd ex_nas_mac ex_ip10 [98;111;120]) in
+  let r2 := Dhcp4.step ex_conf (fst r1) 0 [] (Dhcp4.OStaticAdd ex_kid_mac ex_ip11 [98;111;120]) in
+  let r3 := Dhcp4.step ex_conf (fst r2) 0 [] (Dhcp4.OStaticAdd ex_kid_mac ex_ip11 [116;97;98]) in
+  snd r1 = Dhcp4.RApi true /\ snd r2 = Dhcp4.RApi false /\ snd r3 = Dhcp4.RApi true /\
+  lease_attr ex_lease_ix 0 (fst r2) [] ex_a11 = None /\
+  lease_attr ex_lease_ix 0 (fst r3) [] ex_a11 = Some 1.
+Proof. exact rejected_lease_scenario. Qed.
